@@ -43,6 +43,9 @@ ASSUMPTIONS = [
     'socket.gethostbyname replaced by a fixed table that is the same at start and at finish (the source carries a FIXME about '
     'resolver instability; that is environmental, not a manifest)',
     'rrdutils.flush_noexc (unix socket of the rrd daemon) replaced by a no-op',
+    'half of the private-network containers are started by the whole treadmill.runtime.linux._run.run(): the cgroup / localdisk / '
+    'presence resource services answer at once (the network daemon answers while the container waits for its cgroups), '
+    'cgroups.join, image unpack, root volume, mount clean-up, app hooks are no-ops and the final exec ends the call',
     'finishes "via runtime" go through the real LinuxRuntime.finish / RuntimeBase.finish (s6-svok answers "not supervised"; '
     'runtime.linux.runtime._load_config replaced: it uses configparser APIs removed in Python 3.12); a container whose '
     'directory is gone is not finished again (what Cleanup.invoke does)',
@@ -164,6 +167,8 @@ def _run_case(ctx, idx, rng, tier):
         # 1 container in 8 runs without the linux runtime's standard services (no sshd service, no ssh infra
         # endpoint): _unshare_network/_cleanup_network must be symmetric for manifests without an infra endpoint too
         c.strip_linux_services = rng.random() < 0.125
+        # half of the private-network containers are started by the whole _run.run() (node boundaries stubbed)
+        c.via_run = rng.random() < 0.5
     saved_random = random.getstate()
     random.seed(py_seed)
     host = Host(ext_ip, gen.RESOLVER, pool, conntrack_rc=lambda: rc_rng.choice([0, 1]), firewall_plugin=fw_plugin)
